@@ -99,17 +99,18 @@ theorem exprLe_sound (s : UState) (need hav : Expr) (h : exprLe need hav = true)
 def KnownOK (k : Known) (s : UState) : Prop :=
   (∀ b e, k.get b = some e → ∃ n, evalExpr s e = some n ∧ s.offset + n ≤ (s.blk b).length) ∧
   (∀ b, k.le b = true → s.offset ≤ (s.blk b).length) ∧
-  (∀ b, k.sub = some b → s.offset + s.bytesRead ≤ (s.blk b).length)
+  (∀ b, k.sub = some b → s.offset + s.bytesRead ≤ (s.blk b).length) ∧
+  k.minP ≤ s.P.length
 
 theorem KnownOK.nothing (s : UState) : KnownOK Known.none s := by
-  refine ⟨?_, ?_, ?_⟩
+  refine ⟨?_, ?_, ?_, Nat.zero_le _⟩
   · intro b e h; cases b <;> cases h
   · intro b h; cases b <;> cases h
   · intro b h; cases h
 
 /-- `Known.zero` holds whenever `offset = 0` -/
 theorem KnownOK.zero (s : UState) (h : s.offset = 0) : KnownOK Known.zero s := by
-  refine ⟨?_, ?_, ?_⟩
+  refine ⟨?_, ?_, ?_, Nat.zero_le _⟩
   · intro b e h; cases b <;> cases h
   · intro b _; rw [h]; exact Nat.zero_le _
   · intro b h; cases h
@@ -150,7 +151,7 @@ private theorem forget_le (k : Known) (f : String) (sb : Option Blk) (b : Blk)
 theorem KnownOK.forget_set {k : Known} {s : UState} (h : KnownOK k s) (f : String) (v : Val)
     (br : Nat) (sb : Option Blk) (hsb : ∀ b, sb = some b → s.offset + br ≤ (s.blk b).length) :
     KnownOK { (k.forget f) with sub := sb } { s with env := s.env.set f v, bytesRead := br } := by
-  refine ⟨?_, ?_, ?_⟩
+  refine ⟨?_, ?_, ?_, h.2.2.2⟩
   · intro b e hg
     obtain ⟨hk, hm⟩ := forget_get k f sb b e hg
     obtain ⟨n, hn, hle⟩ := h.1 b e hk
@@ -168,7 +169,7 @@ theorem KnownOK.forget_set {k : Known} {s : UState} (h : KnownOK k s) (f : Strin
 theorem KnownOK.le_only {k : Known} {s s' : UState} (h : KnownOK k s)
     (ho : s'.offset = s.offset) (hP : s'.P = s.P) (hD : s'.D = s.D) :
     KnownOK { leP := k.le .P, leD := k.le .D } s' := by
-  refine ⟨?_, ?_, ?_⟩
+  refine ⟨?_, ?_, ?_, Nat.zero_le _⟩
   · intro b e hg; cases b <;> cases hg
   · intro b hb
     have : k.le b = true := by cases b <;> simpa [Known.le] using hb
@@ -270,7 +271,7 @@ theorem StepOK.weaken_none {k : Known} {r : Step UState} (h : StepOK k r) : Step
 /-- nothing assigned (an unchecked failing nested decoder): forgetting is a weakening -/
 theorem KnownOK.forget_weaken {k : Known} {s : UState} (h : KnownOK k s) (f : String) :
     KnownOK { (k.forget f) with sub := none } s := by
-  refine ⟨?_, ?_, ?_⟩
+  refine ⟨?_, ?_, ?_, h.2.2.2⟩
   · intro b e hg
     exact h.1 b e (forget_get k f none b e hg).1
   · intro b hb
@@ -306,7 +307,7 @@ theorem guardedStmt_sound (C : Codecs) (hC : HonestCodecs C) :
       · trivial
       · rename_i hlt
         simp only [StepOK]
-        refine ⟨?_, ?_, ?_⟩
+        refine ⟨?_, ?_, ?_, by cases b <;> exact hk.2.2.2⟩
         · intro b' e' hg'
           by_cases hb : b' = b
           · subst hb
@@ -463,7 +464,7 @@ theorem guardedStmt_sound (C : Codecs) (hC : HonestCodecs C) :
     | none => trivial
     | some n =>
       simp only [StepOK]
-      refine ⟨fun b e' h => (known_empty_get _ _ b e' h).elim, ?_, fun b h => by cases h⟩
+      refine ⟨fun b e' h => (known_empty_get _ _ b e' h).elim, ?_, (fun b h => by cases h), Nat.zero_le _⟩
       intro b hb
       have hc : covered k b e = true := by cases b <;> simpa [Known.le] using hb
       obtain ⟨m, hm, hle⟩ := hk.covered hc
@@ -474,17 +475,17 @@ theorem guardedStmt_sound (C : Codecs) (hC : HonestCodecs C) :
     simp only [runUStmt, StepOK]
     split at hg <;> cases hg
     · rename_i hsub
-      refine ⟨fun b e' h => (known_empty_get _ _ b e' h).elim, ?_, fun b h => by cases h⟩
+      refine ⟨fun b e' h => (known_empty_get _ _ b e' h).elim, ?_, (fun b h => by cases h), Nat.zero_le _⟩
       intro b hb
       cases b
-      · exact hk.2.2 .P hsub
+      · exact hk.2.2.1 .P hsub
       · simp [Known.le] at hb
     · rename_i hsub
-      refine ⟨fun b e' h => (known_empty_get _ _ b e' h).elim, ?_, fun b h => by cases h⟩
+      refine ⟨fun b e' h => (known_empty_get _ _ b e' h).elim, ?_, (fun b h => by cases h), Nat.zero_le _⟩
       intro b hb
       cases b
       · simp [Known.le] at hb
-      · exact hk.2.2 .D hsub
+      · exact hk.2.2.1 .D hsub
     · exact KnownOK.nothing _
   | .setPad e, k, k', s, hg, hk => by
     simp only [guardedStmt, Option.some.injEq] at hg; subst hg
@@ -522,12 +523,12 @@ theorem guardedStmt_sound (C : Codecs) (hC : HonestCodecs C) :
   | .clear f, k, k', s, hg, hk => by
     simp only [guardedStmt, Option.some.injEq] at hg; subst hg
     simp only [runUStmt, StepOK]
-    exact hk.forget_set f _ s.bytesRead k.sub (fun b h => hk.2.2 b h)
+    exact hk.forget_set f _ s.bytesRead k.sub (fun b h => hk.2.2.1 b h)
   | .makeInts f g, k, k', s, hg, hk => by
     simp only [guardedStmt, Option.some.injEq] at hg; subst hg
     simp only [runUStmt]
     split
-    · exact hk.forget_set f _ s.bytesRead k.sub (fun b h => hk.2.2 b h)
+    · exact hk.forget_set f _ s.bytesRead k.sub (fun b h => hk.2.2.1 b h)
     · trivial
   | .forCountInt b w e f g, k, k', s, hg, hk => by
     simp only [guardedStmt] at hg
@@ -595,7 +596,7 @@ theorem guardedStmt_sound (C : Codecs) (hC : HonestCodecs C) :
   | .cstrUnicode f, k, k', s, hg, hk => by
     simp only [guardedStmt, Option.some.injEq] at hg; subst hg
     simp only [runUStmt, StepOK]
-    refine ⟨fun b e' h => (known_empty_get _ _ b e' h).elim, ?_, fun b h => by cases h⟩
+    refine ⟨fun b e' h => (known_empty_get _ _ b e' h).elim, ?_, (fun b h => by cases h), Nat.zero_le _⟩
     intro b hb
     cases b
     · simp [Known.le] at hb
@@ -612,6 +613,50 @@ theorem guardedStmt_sound (C : Codecs) (hC : HonestCodecs C) :
       obtain ⟨z, hz, _⟩ := sliceC_ok (s.blk b) (s.ext b) (s.offset + 8) (s.offset + 12) (by omega) (by omega)
       simp only [runUStmt, hx, hy, hz, StepOK]
       exact hk.forget_set f _ s.bytesRead none (fun _ h => by cases h)
+    · cases hg
+  | .readAndX, k, k', s, hg, hk => by
+    simp only [guardedStmt, Option.some.injEq] at hg; subst hg
+    simp only [runUStmt]
+    split
+    · rename_i a b c d rest hP
+      simp only [StepOK]
+      have h := hk.forget_set andxField (andxVal a b c d) s.bytesRead k.sub (fun b h => hk.2.2.1 b h)
+      refine ⟨h.1, h.2.1, h.2.2.1, ?_⟩
+      show max k.minP 4 ≤ s.P.length
+      have := hk.2.2.2
+      rw [hP] at this ⊢
+      simp only [List.length_cons] at this ⊢
+      omega
+    · trivial
+  | .resliceP n, k, k', s, hg, hk => by
+    simp only [guardedStmt] at hg
+    split at hg
+    · rename_i hn
+      cases hg
+      have hle : n ≤ s.P.length := Nat.le_trans hn hk.2.2.2
+      simp only [runUStmt, sliceFrom_ok _ _ hle, liftO, StepOK]
+      refine ⟨?_, ?_, ?_, ?_⟩
+      · intro b e hg
+        cases b
+        · cases hg
+        · obtain ⟨m, hm, hle'⟩ := hk.1 .D e hg
+          exact ⟨m, (evalExpr_congr s { s with P := List.drop n s.P } e rfl (fun _ _ => rfl)).trans hm, hle'⟩
+      · intro b hb
+        cases b
+        · simp [Known.resliceP, Known.le] at hb
+        · have : k.le .D = true := by simpa [Known.resliceP, Known.le] using hb
+          exact hk.2.1 .D this
+      · intro b hb
+        cases b
+        · exfalso; revert hb; simp only [Known.resliceP]; split <;> simp
+        · have : k.sub = some .D := by
+            revert hb; simp only [Known.resliceP]; split
+            · rename_i h; intro _; simpa using h
+            · simp
+          exact hk.2.2.1 .D this
+      · show k.minP - n ≤ (s.P.drop n).length
+        have := hk.2.2.2
+        simp only [List.length_drop]; omega
     · cases hg
 theorem guardedStmts_sound (C : Codecs) (hC : HonestCodecs C) :
     ∀ (l : List UStmt) (k k' : Known) (s : UState), guardedStmts k l = some k' → KnownOK k s →
